@@ -15,8 +15,9 @@ Decided statically (shape facts without which some caller hangs or is handed a p
  R6 pool membership: the pool's connection_errors outcome leads to remove_connection, which republishes the connection list.
 Not decided: promptness, TCP behaviour, retry-elsewhere (C06), all cut offsets as such.
 """
+from ..inline import inline_view
 from ..mir import AnchorLost
-from ..util import df_of, fn_short, in_set, backward_slice, switch_on, switch_edges, yields, callers_keys, operand_path, path_last
+from ..util import closure_family, df_of, fn_short, in_set, backward_slice, switch_on, switch_edges, yields, callers_keys, operand_path, path_last
 
 C = "scylla::network::connection::"
 
@@ -167,7 +168,7 @@ def r3(ctx, facts):
         raise AnchorLost("router: switch on the try_join! result not found")
     edges, other = switch_edges(b, res_sw)
     err_tg = edges.get(1, other)
-    ok_tg = edges.get(0)
+    ok_tg = edges.get(0, other if 1 in edges else None)   # `let Err(e) = result else { return }` lists only the Err value
     exits = set(b.exits)
     r.instance("error-path-takes-handlers", not (b.reachable_from(err_tg, removed_nodes=[ih[0].bb]) & exits),
                "on connection failure every path to the router's exit must collect the pending handlers", ih[0].span)
@@ -211,7 +212,7 @@ def r4(ctx, facts):
             awaited_ok += 1
     r.instance("both-awaits-mapped-and-propagated", awaited_ok >= 2 and len(polls) == 2,
                "both awaits (submit, receive) must map their failure and propagate it with `?`; %d of %d do" % (awaited_ok, len(polls)), b.span)
-    closures = [facts.body(p) for p in facts.bodies.keys() if p.startswith(b.path + "::{closure")]
+    closures = closure_family(facts, b)[1:]
     kinds = set()
     for cb in closures:
         for bb in cb.live_blocks:
@@ -284,7 +285,7 @@ def r7(ctx, facts):
 
 
 def check(ctx):
-    facts = ctx.facts("default")
+    facts = inline_view(ctx.facts("default"))
     for fn in (r1, r2_r5, r3, r4, r6, r7):
         try:
             fn(ctx, facts)
